@@ -416,6 +416,21 @@ def gen_map(rng: random.Random):
         quickhide_count=rng.choice([0, 0, 0, 2, 17]),
         strata_inst_visibility=rng.choice([None, None, *StrataInstanceVisibility]),
     )
+    # half of the maps set the plain settings as attributes after construction (the other public way to build a map):
+    # a constructor that mangles a value would otherwise mangle the original and the re-parsed map alike
+    if rng.random() < 0.5:
+        vmf.active_cam = rng.choice([-1, 0, 0, 1, 2])
+        vmf.grid_spacing = rng.choice([64, 0, 1, 512])
+        vmf.hammer_ver = rng.choice([400, 0, 7])
+        vmf.hammer_build = rng.choice([8864, 0, 1])
+        vmf.map_ver = rng.choice([0, 1, 5])
+        vmf.quickhide_count = rng.choice([0, 0, 3])
+        vmf.is_prefab = rng.random() < 0.3
+        vmf.cordon_enabled = rng.random() < 0.5
+        vmf.show_grid = rng.random() < 0.5
+        vmf.snap_grid = rng.random() < 0.5
+        vmf.show_3d_grid = rng.random() < 0.5
+        vmf.show_logic_grid = rng.random() < 0.5
     ctx = {'dup': dup, 'vis_ids': [], 'group_ids': [], 'ent_ids': [vmf.spawn.id], 'solid_ids': [], 'face_ids': []}
     if rng.random() < 0.5:
         for _ in range(rng.randint(1, 3)):
@@ -939,6 +954,29 @@ def _t_disp_multiblend(colors: bool) -> Callable[[], Any]:
     return make
 
 
+def _t_disp_multiblend_only_w():
+    from srctools.vmf import Vec4
+
+    def fill(side: Any) -> None:
+        for y in range(3):
+            for x in range(3):
+                vert = side[x, y]
+                vert.multi_blend = Vec4(0.0, 0.0, 0.0, 0.5)       # only the fourth blend texture is painted
+                vert.multi_alpha = Vec4(0.0, 0.0, 0.0, 1.0)
+    return _disp_map(1, fill)
+
+
+def _t_active_camera_zero():
+    from srctools.vmf import Camera
+    from srctools.math import Vec
+    vmf = _new()
+    Camera(vmf, Vec(0, 0, 0), Vec(64, 0, 0))
+    Camera(vmf, Vec(0, 16, 0), Vec(64, 16, 0))
+    vmf.active_cam = 0
+    vmf.grid_spacing = 0
+    return vmf
+
+
 def _t_disp_flags():
     from array import array
     from srctools.vmf import DispFlag
@@ -1081,6 +1119,8 @@ def _t_numbers():
 TARGETED: List[Tuple[str, Callable[[], Any]]] = [
     ('empty_map', _new),
     ('settings', _t_settings),
+    ('disp_multiblend_only_fourth_weight', _t_disp_multiblend_only_w),
+    ('active_camera_zero', _t_active_camera_zero),
     ('key_with_quote', _t_key('a"b')),
     ('key_with_backslash', _t_key('path\\name')),
     ('key_with_tab', _t_key('two\twords')),
